@@ -230,7 +230,8 @@ class Run:
         self.t0 = time.time(); self.seed = seed(); self.tier = tier()
         self.rng = random.Random(self.seed * 1000003 + int(prop[1:]))
         self.violations = 0; self.known_printed = set()
-        self.cov = dict(obligations=0, discharged=0, checker_cmd="", trusted_base=[], samples=[],
+        self.cov = dict(obligations=0, discharged=0, trusted_base=[], samples=[],
+                        checker_cmd=f"make -C coq <cone of {prop}> && coqc -Q coq TT coq/Properties/{prop}.v  (Print Assumptions scanned)",
                         evaluations=0, distinct_nontrivial=0, rule="")
         self.assumptions = []
         self.findings, self.fixed = known_findings()
